@@ -715,7 +715,7 @@ fn readback(h: &Hdr, m: &Meaning, dl: &[u8], dls: &[u8], ds: &[u8]) -> Result<()
                 };
                 if !ok {
                     return Err(format!(
-                        "row{}:addr={:#x},op={},line={:?},end={}:want:addr={:#x},op={},line={},end={}",
+                        "row{}:addr={:#x};op={};line={:?};end={}:want:addr={:#x};op={};line={};end={}",
                         k,
                         r.address(),
                         r.op_index(),
